@@ -447,9 +447,25 @@ def exhaustive_small(rng):
     return out
 
 
+# The REQUIRED stream: a fixed-seed batch (own constant seed, independent of VERIF_SEED and of the tier) that alone
+# covers every kind sanity() requires; it is prepended in both tiers, the run's seed only drives the additional
+# random stream.  sanity() evaluates its "kind drawn" requirements on this stream.
+REQUIRED_SEED = 170017
+REQUIRED_N = 200
+_REQUIRED = None
+
+
+def required_stream():
+    global _REQUIRED
+    if _REQUIRED is None:
+        r = C.Rng(REQUIRED_SEED)
+        _REQUIRED = [dict(gen_case(r, "quick"), req=True) for _ in range(REQUIRED_N)]
+    return [dict(c) for c in _REQUIRED]
+
+
 def generate(rng, tier):
-    n = 520 if tier == "quick" else 20000
-    cases = [gen_case(rng, tier) for _ in range(n)]
+    n = 320 if tier == "quick" else 20000
+    cases = required_stream() + [gen_case(rng, tier) for _ in range(n)]
     if tier == "thorough":
         cases += exhaustive_small(rng)
     return cases
@@ -1114,9 +1130,19 @@ def coq_term(case, obs):
 
 
 def sanity(cases, obss):
-    """Fail-closed distribution check: a run whose inputs degenerate must not report green."""
-    d = stats(cases, obss)
+    """Fail-closed distribution check: a run whose inputs degenerate must not report green.  Every "kind drawn"
+    requirement is evaluated on the REQUIRED (fixed-seed) stream, so that it does not depend on the run's seed; the
+    two ratio bounds are additionally evaluated over the whole run."""
+    req = [(c, o) for c, o in zip(cases, obss) if c is not None and c.get("req")]
+    if len(req) < REQUIRED_N:
+        return [f"only {len(req)} of the {REQUIRED_N} cases of the required stream were run"]
+    whole = stats(cases, obss)
+    d = stats([c for c, _ in req], [o for _, o in req])
     probs = []
+    if whole["calls"] and whole["call_errors"] > 0.4 * whole["calls"]:
+        probs.append(f"{whole['call_errors']} of {whole['calls']} calls of the whole run raise")
+    if whole["fit_errors"] > 0.2 * max(1, whole["total"]):
+        probs.append(f"{whole['fit_errors']} fits of the whole run raise")
     if d["total"] == 0 or d["calls"] == 0:
         return ["no histories / no calls"]
     for t in ("regression", "binary", "multiclass", "multi"):
